@@ -859,7 +859,7 @@ func c18AllZero(b []byte) bool {
 func runC18(c *Ctx) {
 	runC18Fixed(c)
 	runC18Canon(c)
-	// c18Vmsa(c) is enabled together with the PutVmsa strictness repair (D11b, D23) delivered by builder sev2
+	c18Vmsa(c) // PutVmsa strictness, field by field (D11b, D23 repaired: b12c7d6, b6533c2)
 	runC18Tdx(c)
 	runC18Hobs(c)
 	runC18EventLog(c)
